@@ -504,8 +504,8 @@ func (ck *checker) handle(o *outcome) {
 	ck.mu.Lock()
 	budget := ck.failedConfirms < 40
 	ck.mu.Unlock()
-	if n >= 3 || !budget {
-		return // three different cases of this class (or 40 candidates overall) already failed to reproduce
+	if n >= 4 || !budget {
+		return // four different cases of this class (or 40 candidates overall) already failed to reproduce
 	}
 	if ck.confirm(sc, c) {
 		ck.mu.Lock()
@@ -636,7 +636,7 @@ func main() {
 		total = len(all)
 		budget := 12 * time.Minute
 		deadline := time.Now().Add(budget)
-		completed = ck.runAll(all, 64, deadline)
+		completed = ck.runAll(all, 56, deadline)
 		if completed < total {
 			exhaustive = false
 			capNote = fmt.Sprintf("time budget of %v reached after %d of %d scenarios (order: every (kind,height,range,after) once with a rotating arrival order and 2 peers [%d], the same with 3 peers [%d], then the remaining five arrival orders [%d])", budget, completed, total, len(t1), len(t3), len(t2))
